@@ -35,7 +35,7 @@ __all__ = [PushService.__name__]
 
 from ..api.tracepoint import TracePointConfig as TrPoCo, EventSnapshot, StackFrame as StFr, WatchResult as WaRe, \
     Variable as Var, VariableId as VarId
-from ..grpc import convert_value
+from ..grpc import convert_value, convert_key
 
 
 def __as_text(value):
@@ -61,9 +61,10 @@ def __as_text(value):
 
 
 def __convert_tracepoint(tracepoint: TrPoCo):
-    return TracePointConfig(ID=tracepoint.id, path=tracepoint.path, line_number=tracepoint.line_no,
-                            args=tracepoint.args,
-                            watches=tracepoint.watches)
+    # a tracepoint registered in code can carry text that is not valid UTF-8 (a file name, a value from the environment)
+    return TracePointConfig(ID=tracepoint.id, path=__as_text(tracepoint.path), line_number=tracepoint.line_no,
+                            args={__as_text(k): __as_text(v) for k, v in tracepoint.args.items()},
+                            watches=[__as_text(w) for w in tracepoint.watches])
 
 
 def __convert_frame(frame: StFr):
@@ -118,9 +119,10 @@ def convert_snapshot(snapshot: EventSnapshot) -> Snapshot:
                         var_lookup=__convert_lookup(snapshot.var_lookup),
                         ts_nanos=snapshot.ts_nanos, frames=[__convert_frame(f) for f in snapshot.frames],
                         watches=[__convert_watch(w) for w in snapshot.watches],
-                        attributes=[KeyValue(key=k, value=convert_value(v)) for k, v in snapshot.attributes.items()],
+                        attributes=[KeyValue(key=convert_key(k), value=convert_value(v))
+                                    for k, v in snapshot.attributes.items()],
                         duration_nanos=snapshot.duration_nanos,
-                        resource=[KeyValue(key=k, value=convert_value(v)) for k, v in
+                        resource=[KeyValue(key=convert_key(k), value=convert_value(v)) for k, v in
                                   snapshot.resource.attributes.items()],
                         log_msg=__as_text(snapshot.log_msg))
     except Exception:
